@@ -175,6 +175,7 @@ type txRec struct {
 	mu        sync.Mutex
 	PooledAt  map[int]uint32 // node -> its chain height right after PoolTx succeeded
 	Requested bool           // reached some pool through RequestTx
+	PreStart  bool           // pooled everywhere before the services started (full_test.go)
 	Burst     int            // misconf schedules: the burst it belongs to (from 1)
 	Deadline  uint32         // misconf schedules: the height by which it must be on chain
 }
